@@ -57,6 +57,8 @@ type Op struct {
 	NoHandlers bool `json:"no_handlers,omitempty"`
 	// ExecTwice: call Exec a second time on the same *Query after the first returned
 	ExecTwice bool `json:"exec_twice,omitempty"`
+	// VarsBetween: entries the caller writes into its variable map between the two Execs
+	VarsBetween map[string]any `json:"vars_between,omitempty"`
 	// Register: instead of a query, (re-)register the stub body under this
 	// function name, as an immediate function when RegisterImmediate is set
 	Register          string `json:"register,omitempty"`
